@@ -281,6 +281,22 @@ class Engine(object):
             return t.items[0] if isinstance(t, PList) else t
         self.prims["open_string"] = GhostPrim("open_string", open_string)
 
+        def is_fresh(ex, v):
+            """v (and every list inside it) was allocated during this call: not a module-level object, not an argument"""
+            def fresh(x):
+                if isinstance(x, (PList, PDict, PSet, SList, RepList)):
+                    if getattr(x, "origin", None) is not None:
+                        return False
+                    items = x.items if isinstance(x, (PList, PSet)) else list(x.d.values()) if isinstance(x, PDict) else []
+                    return all(fresh(y) for y in items)
+                if isinstance(x, tuple):
+                    return all(fresh(y) for y in x)
+                if isinstance(x, Obj):
+                    return getattr(x, "origin", None) is None
+                return True
+            return fresh(v)
+        self.prims["is_fresh"] = GhostPrim("is_fresh", is_fresh)
+
         def isstr(ex, v):
             return is_strlike(v)
         self.prims["is_str"] = GhostPrim("is_str", isstr)
@@ -331,7 +347,8 @@ class Engine(object):
         def list_reverse_of(ex, a, b):
             """a is b reversed (goal position only: the universally quantified index is skolemised)"""
             if isinstance(a, PList) and isinstance(b, PList):
-                return ex.equals(a, PList(list(reversed(b.items))), None)
+                r = ex.equals(a, PList(list(reversed(b.items))), None)
+                return r if isinstance(r, bool) else mk_bool(r)
             if isinstance(a, RepList) and isinstance(b, RepList):
                 if len(a.head) != len(b.tail) or len(a.base) != len(b.base) or len(a.tail) != len(b.head):
                     return False
@@ -353,8 +370,9 @@ class Engine(object):
 
         def list_same(ex, a, b):
             if isinstance(a, (PList, tuple)) and isinstance(b, (PList, tuple)):
-                return ex.equals(PList(list(a.items if isinstance(a, PList) else a)),
-                                 PList(list(b.items if isinstance(b, PList) else b)), None)
+                r = ex.equals(PList(list(a.items if isinstance(a, PList) else a)),
+                              PList(list(b.items if isinstance(b, PList) else b)), None)
+                return r if isinstance(r, bool) else mk_bool(r)
             if not ex.ctx.goal_mode:
                 raise Unsupported("list_same outside a goal")
             i = ex.ctx.fresh("sk_j")
@@ -489,7 +507,27 @@ class Engine(object):
             raise Unsupported(what)
         return f
     list_repeat = _unsup("list repetition with symbolic count")
-    list_sort = _unsup("list.sort on symbolic elements")
+    def list_sort(self, ex, lst, kwargs, line):
+        """list.sort(): stable insertion sort driven by the elements' own < (forks on symbolic comparisons);
+        CPython's sort is stable and only uses <, so the resulting order is the same"""
+        if kwargs:
+            raise Unsupported("list.sort with key/reverse")
+        items = lst.items
+        if len(items) > 4:
+            raise Unsupported("list.sort of more than 4 symbolic elements")
+        out = []
+        for x in items:
+            pos = len(out)
+            while pos > 0:
+                r = ex.compare(ast.Lt(), x, out[pos - 1], line)
+                t = r if isinstance(r, bool) else ex.ctx.branch(r)
+                if not t:
+                    break
+                pos -= 1
+            out.insert(pos, x)
+        lst.items = out
+        ex.ctx.tags.add("builtin:list.sort (stable insertion by the elements' <)")
+        return None
     int_of_str = _unsup("int() of a symbolic string")
     str_of_int = _unsup("str() of a symbolic int")
     def math_log(self, ex, args, line):
@@ -924,8 +962,9 @@ class Engine(object):
                 if outcome[0] != "cut":
                     self.exit_obligations(ex, fref, contract, penv, env, outcome)
             except Infeasible:
-                work.extend(ctx.alternatives)
-                continue
+                # the path condition became contradictory (e.g. after a failed obligation was assumed):
+                # the path ends here, but the obligations emitted so far still count
+                pass
             except Unsupported as u:
                 undecided.append(("unsupported", str(u)))
             except RecursionError:
